@@ -20,6 +20,7 @@ def run(pid, flt=None, quiet=False):
     reg = json.load(open(os.path.join(ROOT, 'registry.json')))
     ent = reg['properties'][pid]
     results = []
+    allunits = list(ent['units'])
     for us in ent['units']:
         mp = os.path.join(ROOT, 'units', us['unit'], 'mutants.json')
         if not os.path.exists(mp):
@@ -39,6 +40,22 @@ def run(pid, flt=None, quiet=False):
                     for ln in open(tpath):
                         if ln.strip().startswith('//@source'):
                             files.add(ln.split()[2])
+                for u2 in allunits:
+                  t2 = os.path.join(ROOT, 'units', u2['unit'], 'template.rs')
+                  if os.path.exists(t2):
+                    for ln in open(t2):
+                        if ln.strip().startswith('//@source'):
+                            files.add(ln.split()[2])
+                  kdir = os.path.join(ROOT, 'units', u2['unit'], 'kani')
+                  if os.path.isdir(kdir):
+                    import re as _re
+                    for fn in os.listdir(os.path.join(kdir, 'src')):
+                        kt = open(os.path.join(kdir, 'src', fn)).read()
+                        files.update(_re.findall(r'@REPO@/([\w/\.\-]+)', kt))
+                        files.update(_re.findall(r'//@extract\s+(\S+)', kt))
+                    km = json.load(open(os.path.join(kdir, 'harnesses.json')))
+                    files.update(f['file'] for f in km.get('functions', []))
+                    files.add('Cargo.lock')
                 for f in files:
                     dst = os.path.join(tmp, f)
                     os.makedirs(os.path.dirname(dst), exist_ok=True)
